@@ -6,7 +6,7 @@ use crate::driver::{Check, Section};
 use crate::s3sim::{self, Backend, BodyPlan, Core, NetPlan, Reply, ReqKind, Request};
 use crate::streamsim::damage;
 use crate::tape::Tape;
-use crate::workload::{build_volume, StreamOpts};
+use crate::workload::{build_volume, build_volume_inner, StreamOpts};
 use nexrad_data::aws::archive::{download_file, Identifier};
 use nexrad_data::aws::realtime::{download_chunk, Chunk, ChunkIdentifier, VolumeIndex};
 use nexrad_data::volume::{File, Record};
@@ -233,7 +233,7 @@ impl Check for C06 {
     }
     fn required_probes(&self, _tier: Tier) -> Vec<&'static str> {
         // workload-side probes only (what was served and exercised, not what the code chose to return)
-        vec!["api.file", "api.record", "fault.short_object", "fault.body_cut", "fault.stored_damage", "fault.size_prefix"]
+        vec!["api.file", "api.record", "fault.short_object", "fault.body_cut", "fault.stored_damage", "fault.size_prefix", "fault.payload_damaged_before_compression"]
     }
     fn budget_s(&self, tier: Tier) -> u64 {
         match tier {
@@ -272,7 +272,11 @@ impl Check for C06 {
                 bytes
             }
             _ => {
-                let v = build_volume(tape, 4, &opts);
+                let (v, inner_notes) = build_volume_inner(tape, 4, &opts, true);
+                if !inner_notes.is_empty() {
+                    ctx.count("fault.payload_damaged_before_compression");
+                }
+                notes.extend(inner_notes);
                 let as_chunk = tape.draw(3) == 2 && !v.records.is_empty();
                 let mut bytes = if as_chunk { v.bytes[24..].to_vec() } else { v.bytes.clone() };
                 let shift = if as_chunk { 24 } else { 0 };
